@@ -386,6 +386,43 @@ def r_defaultdict(eng, args, kw, st, sink, n):
     raise Unsupported("defaultdict(...) needs a declared DDict local type", n)
 
 
+def r_filter(eng, args, kw, st, sink, n):
+    f, it = args
+    if it.ty is T.PY and isinstance(it.z, tuple) and it.z and it.z[0] == "pygen":
+        yield st, V(T.PY, ("pyfilter", f, it.z))
+        return
+    raise Unsupported("filter() over a symbolic iterable", n)
+
+
+def r_next(eng, args, kw, st, sink, n):
+    """next(filter(pred, (f(x) for f in CONCRETE_TUPLE)), default): unrolled in order, forking on pred"""
+    it = args[0]
+    if not (it.ty is T.PY and isinstance(it.z, tuple) and it.z and it.z[0] == "pyfilter"):
+        raise Unsupported("next() of this iterator", n)
+    _, pred, (_, gen, env, items) = it.z
+    target = gen.generators[0].target
+
+    def rec(i, st):
+        if i == len(items):
+            if len(args) > 1:
+                yield st, args[1]
+            else:
+                sink.append((st, Exc(StopIteration)))
+            return
+        e2 = dict(env)
+        st1 = eng.bind_target(target, eng.lift(items[i]), st.clone(env=e2), n)
+        for st2, v in eng.evx(gen.elt, st1, sink):
+            st2 = st2.clone(env=st.env)
+            for st3, keep in eng.apply(pred, [v], {}, st2, sink, n):
+                k = eng.truthy(keep, n)
+                if eng.feasible(st3, k):
+                    yield st3.assume(k), v
+                if eng.feasible(st3, z3.Not(k)):
+                    yield from rec(i + 1, st3.assume(z3.Not(k)))
+
+    yield from rec(0, st)
+
+
 def r_noop(eng, args, kw, st, sink, n):
     yield st, eng.lift(None)
 
@@ -577,6 +614,8 @@ def install(eng):
     R[range] = r_range
     R[enumerate] = r_enumerate
     R[ft.partial] = r_partial
+    R[filter] = r_filter
+    R[next] = r_next
     import collections
     R[collections.defaultdict] = r_defaultdict
     try:
